@@ -1,5 +1,6 @@
 import Karp.Driver.ScenarioJson
 import Karp.Spec.InterPod
+import Karp.Driver.C02Group
 
 namespace Karp.Driver.C02
 open Lean Karp.Driver Karp.Driver.ScenarioJson Karp.Scn
@@ -22,6 +23,7 @@ def opPass (inp impl : Json) : Except String Resp := do
 def handle : Handler := fun op inp impl =>
   match op with
   | "c02.pass" => opPass inp impl
+  | "c02.group" => Karp.Driver.C02Group.opGroup inp impl
   | _ => .error s!"unknown op {op}"
 
 end Karp.Driver.C02
